@@ -30,10 +30,11 @@ class Unsupported(Exception):
 class Exc:
     """a python exception value travelling along a raise edge"""
 
-    def __init__(self, cls, msg=None, exact=True):
+    def __init__(self, cls, msg=None, exact=True, excluding=()):
         self.cls = cls  # class name (last component)
         self.msg = msg  # Val or None
         self.exact = exact  # False: "some (unknown) subclass of cls, or cls itself"
+        self.excluding = tuple(excluding)  # classes the unknown exception is known NOT to be an instance of
 
     def __repr__(self):
         return "Exc(%s%s)" % (self.cls, "" if self.exact else "+")
@@ -111,6 +112,8 @@ class State:
         s.heap = {k: (dict(v) if isinstance(v, dict) else v) for k, v in self.heap.items()}
         s.pc = list(self.pc)
         s.ghost = dict(self.ghost)
+        if "__ne_cache" in s.ghost:
+            s.ghost["__ne_cache"] = Conc(dict(s.ghost["__ne_cache"].v))
         s.nextcell = self.nextcell  # shared counter: fresh ids stay unique
         s.notes = list(self.notes)
         return s
@@ -319,6 +322,9 @@ class SX:
             x = z3.Const(fresh_name("dx"), t.k.sort())
             return z3.Exists([x], z3.Select(t.dom(v.term), x))
         if isinstance(t, V.Rec):
+            h = self.reg.hooks.get(("truthy", t.rname))
+            if h is not None:
+                return h(self, v, st)
             return z3.BoolVal(True)
         if isinstance(t, V._Json):
             return self.B.json_truthy(v.term)
@@ -326,24 +332,34 @@ class SX:
             return z3.BoolVal(True)
         self.unsupported("truthiness of %r" % (t,))
 
-    def set_ne_fun(self, t):
-        return self.reg.ufun("set_nonempty_" + V._sname(t), [t.sort()], z3.BoolSort())
-
     def set_nonempty(self, v, st):
-        """quantifier-free encoding of `bool(set)`: an uninterpreted predicate tied to membership by a witness
-        function (ne(s) -> s[wit(s)]) and, at every membership test, by s[x] -> ne(s)"""
+        """`bool(set)` without quantifier alternation and without functions over array sorts:
+        structural where the set was built by the engine (empty literal, add, union, intersection), otherwise a
+        fresh Boolean tied to membership by a witness (ne -> s[w]) and by  forall x. s[x] -> ne  (triggered on s[x])"""
         t = v.ty
+        if v.aux and "ne" in v.aux:
+            return v.aux["ne"]
         term = z3.simplify(v.term)
         if z3.is_const_array(term):
             return z3.BoolVal(z3.is_true(term.arg(0)))
         if z3.is_store(term) and z3.is_true(term.arg(2)):
             return z3.BoolVal(True)
-        ne = self.set_ne_fun(t)
-        wit = self.reg.ufun("set_witness_" + V._sname(t), [t.sort()], t.elem.sort())
-        if st is not None:
-            st.assume(z3.Implies(ne(v.term), z3.Select(v.term, wit(v.term))))
-            st.assume(z3.Implies(z3.Select(v.term, wit(v.term)), ne(v.term)))
-        return ne(v.term)
+        x = z3.Const("ne_x", t.elem.sort())
+        if st is None:
+            return z3.Exists([x], z3.Select(v.term, x))
+        cache = st.ghost.setdefault("__ne_cache", Conc({}))
+        key = v.term.sexpr()
+        if key in cache.v:
+            return cache.v[key]
+        ne = z3.Bool(fresh_name("nonempty"))
+        w = z3.Const(fresh_name("witness"), t.elem.sort())
+        st.assume(z3.Implies(ne, z3.Select(v.term, w)))
+        try:
+            st.assume(z3.ForAll([x], z3.Implies(z3.Select(v.term, x), ne), patterns=[z3.Select(v.term, x)]))
+        except z3.Z3Exception:
+            st.assume(z3.ForAll([x], z3.Implies(z3.Select(v.term, x), ne)))
+        cache.v[key] = ne
+        return ne
 
     def deref(self, v, st):
         """Ref to a mutable container -> its current immutable Val"""
@@ -471,6 +487,12 @@ class SX:
             return b
         a = self.lift(a) if isinstance(a, Conc) else a
         b = self.lift(b) if isinstance(b, Conc) else b
+        if self.spec_mode and st is not None:
+            # contract expressions have value semantics
+            if isinstance(a, Ref) and isinstance(st.heap.get(a.cell), Val):
+                a = st.getcell(a.cell)
+            if isinstance(b, Ref) and isinstance(st.heap.get(b.cell), Val):
+                b = st.getcell(b.cell)
         if isinstance(a, (Ref, Func)) or isinstance(b, (Ref, Func)):
             return None
         if a.ty == b.ty:
@@ -590,7 +612,14 @@ class SX:
         return out
 
     def new_list(self, vals, st, node=None, elem_ty=None):
-        vals = [self.lift(v) if isinstance(v, Conc) else self.deref(v, st) for v in vals]
+        raw = list(vals)
+        try:
+            vals = [self.lift(v) if isinstance(v, Conc) else self.deref(v, st) for v in vals]
+        except Unsupported:
+            return Conc(HetList(raw))
+        if elem_ty is None and vals and any(isinstance(v, (Ref, Func, Conc)) or v.ty is None or v.ty != vals[0].ty for v in vals):
+            # a list literal of mixed python types (e.g. a protocol frame ["OK", id, True, ""]): kept as a python-level tuple
+            return Conc(HetList(raw))
         if elem_ty is None:
             if not vals:
                 # element type unknown yet: polymorphic empty list
@@ -735,6 +764,8 @@ class SX:
             elif a is not b:
                 return False
         for k in before.ghost:
+            if k == "__ne_cache":
+                continue
             if before.ghost[k] is not after.ghost.get(k):
                 return False
         return len(before.ghost) == len(after.ghost)
@@ -833,10 +864,10 @@ class SX:
         if isinstance(a, Func) or isinstance(b, Func):
             return z3.BoolVal(a is b)
         if isinstance(a, Ref) or isinstance(b, Ref):
-            o = b if isinstance(a, Ref) else a
-            if isinstance(o, Val) and isinstance(o.ty, V._None):
-                return z3.BoolVal(False)
             return z3.BoolVal(False)
+        for x, y in ((a, b), (b, a)):
+            if isinstance(x, Conc) and not isinstance(x.v, (int, str, float, bool, bytes, type(None), tuple)) and isinstance(y, Val) and isinstance(y.ty, V._None):
+                return z3.BoolVal(False)
         # identity on immutable values: only None/True/False identities are meaningful
         la = self.lift(a) if isinstance(a, Conc) else a
         lb = self.lift(b) if isinstance(b, Conc) else b
@@ -888,6 +919,8 @@ class SX:
             m = self.reg.rec_attr(self, obj, attr, st, node)
             if m is not None:
                 return m
+            if ("method", t.rname) in self.reg.hooks:
+                return [R(st, self.B.bound_method(self, obj, attr, node))]
             self.unsupported("attribute %s of record %s" % (attr, t.rname), node)
         if isinstance(t, V.Opt):
             # attribute access on None raises AttributeError
@@ -896,7 +929,7 @@ class SX:
             if not z3.is_false(isn) and not self.spec_mode and self.feasible(st, isn):
                 outs.append(R(st.fork().assume(isn), None, Exc("AttributeError")))
             if not z3.is_true(isn):
-                s2 = st.assume(z3.Not(isn))
+                s2 = st if self.spec_mode else st.assume(z3.Not(isn))
                 outs.extend(self.getattr(Val(t.inner, t.get(obj.term)), attr, s2, node))
             return outs
         if isinstance(t, V._None):
@@ -927,7 +960,23 @@ class SX:
 
     def ev_Await(self, node, st):
         # `await e`: the coroutine's effects happen here; one coroutine step is atomic (assumption A4)
-        return self.ev(node.value, st)
+        out = []
+        for r in self.ev(node.value, st):
+            if r.exc is not None:
+                out.append(r)
+                continue
+            v = r.val
+            if isinstance(v, Conc) and hasattr(v.v, "__pyvc_await__"):
+                out.extend(v.v.__pyvc_await__(self, r.st, node))
+                continue
+            if isinstance(v, Val) and v.ty is not None:
+                t = v.ty.inner if isinstance(v.ty, V.Opt) else v.ty
+                h = self.reg.hooks.get(("await", repr(t)))
+                if h is not None:
+                    out.extend(h(self, v, r.st, node))
+                    continue
+            out.append(r)
+        return out
 
     def ev_Lambda(self, node, st):
         frames_depth = len(st.frames)
@@ -1239,11 +1288,17 @@ class SX:
     def assign(self, tgt, val, st, aug=False):
         if isinstance(tgt, ast.Name):
             lt = getattr(self.unit, "local_types", None)
-            if lt and tgt.id in lt and isinstance(val, Ref) and isinstance(st.heap.get(val.cell), tuple):
-                # sidecar-declared type of a local that starts as an empty literal ([] / set() / {})
+            if lt and tgt.id in lt and not self.spec_mode:
                 ty = lt[tgt.id]
-                st.heap[val.cell] = Val(ty, ty.empty())
-                val.ty = ty
+                if callable(ty) and not isinstance(ty, V.Ty):
+                    # sidecar-supplied conversion for a local whose python type changes over time
+                    val = ty(self, val, st)
+                elif isinstance(val, Ref) and isinstance(st.heap.get(val.cell), tuple):
+                    # sidecar-declared type of a local that starts as an empty literal ([] / set() / {})
+                    st.heap[val.cell] = Val(ty, ty.empty())
+                    val.ty = ty
+                elif isinstance(ty, V.Opt) and isinstance(val, Val) and not isinstance(val, (Ref, Func, Conc)) and val.ty is not None:
+                    val = self.as_opt(val, ty) if (isinstance(val.ty, V._None) or val.ty == ty.inner or val.ty == ty) else val
             st.env[tgt.id] = val
             return [Out("normal", st)]
         if isinstance(tgt, (ast.Tuple, ast.List)):
@@ -1462,7 +1517,7 @@ class SX:
             for s, e in pending:
                 if any(is_subclass(e.cls, c) for c in classes):
                     outs.extend(self.run_handler(h, s, e))
-                elif not e.exact and any(is_subclass(c, e.cls) for c in classes):
+                elif not e.exact and any(is_subclass(c, e.cls) and not any(is_subclass(c, x) for x in e.excluding) for c in classes):
                     # unknown subclass of e.cls: may or may not be caught here
                     outs.extend(self.run_handler(h, s.fork(), e))
                     nxt.append((s, e))
@@ -1670,6 +1725,10 @@ class SX:
         # 2. havoc
         targets = self.assigned_names([stmt.target]) if kind == "for" else set()
         self.havoc_for_loop(stmt.body, st, targets)
+        # locals first assigned inside the loop: declared by the sidecar so that iteration posts can mention them
+        for nm, ty in (getattr(self.unit, "loop_locals", None) or {}).items():
+            if nm not in st.env:
+                st.env[nm] = self.fresh(ty, nm, st)
         k = self.fresh(V.Int, idx, st)
         st.assume(k.term >= 0)
         extra = {idx: k}
@@ -1744,6 +1803,22 @@ class SX:
                 else:
                     outs.append(Out("normal", s))
         return outs
+
+
+class HetList:
+    """a freshly built list literal with elements of different python types (not modelled as mutable)"""
+
+    def __init__(self, items):
+        self.items = list(items)
+
+    def __pyvc_getitem__(self, sx, k, st, node):
+        kk = z3.simplify(k.term)
+        if z3.is_int_value(kk) and -len(self.items) <= kk.as_long() < len(self.items):
+            return [R(st, self.items[kk.as_long()])]
+        raise Unsupported("symbolic index into a mixed-type list literal", node)
+
+    def __pyvc_len__(self, sx, st, node):
+        return [R(st, V.mk_int(len(self.items)))]
 
 
 class GenClosure:
